@@ -2,6 +2,8 @@
 import json
 import os
 
+from .. import alpha
+from .. import inline
 from .. import tree as T
 
 VERIF = os.path.dirname(os.path.dirname(os.path.dirname(os.path.abspath(__file__))))
@@ -12,8 +14,35 @@ class Ctx:
         self.facts = facts
         self.tier = tier
         self.repo = repo
+        # renamed private items and locals are mapped back to their reference names before any rule looks at the trees
+        # (sa/alpha.py; reference = spec/binders.json)
+        ref = alpha.load_reference()
+        self.alpha = {}
+        for crate in ("lib", "bin"):
+            r = ref.get(crate, {})
+            if r and not facts[crate].get("_aligned"):
+                facts[crate], done = alpha.align_items(facts[crate], r)
+                facts[crate]["_aligned"] = done
+            for new, old in (facts[crate].get("_aligned") or {}).items():
+                self.alpha[("cli::" if crate == "bin" else "") + new] = old
         self.lib = T.Program(facts["lib"])
         self.bin = T.Program(facts["bin"])
+        for crate, prog in (("lib", self.lib), ("bin", self.bin)):
+            rf = ref.get(crate, {}).get("fns")
+            prog.new_fns = set() if rf is None else {b["def_path"] for b in prog.user_bodies()
+                                                      if b.get("kind") in ("Fn", "AssocFn") and b["def_path"] not in rf and "::tests::" not in b["def_path"]}
+        self.inlined = {}
+        for crate, prog in (("lib", self.lib), ("bin", self.bin)):
+            if not facts[crate].get("_inlined_done"):
+                facts[crate]["_inlined"] = inline.inline_new_functions(prog)
+                facts[crate]["_inlined_away"] = sorted(prog.inlined_away)
+                facts[crate]["_inlined_done"] = True
+            prog.inlined_away = set(facts[crate].get("_inlined_away") or [])
+            for fn, cs in (facts[crate].get("_inlined") or {}).items():
+                self.inlined[("cli::" if crate == "bin" else "") + fn] = cs
+        for crate, prog in (("lib", self.lib), ("bin", self.bin)):
+            for fn, m in alpha.normalise_program(prog, ref.get(crate, {}).get("binders", {})).items():
+                self.alpha[("cli::" if crate == "bin" else "") + fn] = m
 
     def spec(self, name):
         with open(os.path.join(VERIF, "spec", name)) as f:
